@@ -297,7 +297,9 @@ def oracle(case, rec):
         else:
             c_at = _ref_cdf(fam, P, q)
             dens = _ref_pdf(fam, P, q) if 0 < c_at < 1 else mp.mpf(1)
-            tol = 1e-9 + float(dens) * abs(q) * 1e-12
+            # the quantile is scipy's numerical inverse (e.g. beta.ppf(0.5) of a symmetric beta is off by 1e-9 in x);
+            # the property is about WHICH distribution, so the tolerance is the inverse solver's, not arithmetic's
+            tol = 1e-7 + float(dens) * abs(q) * 1e-9
             if abs(float(c_at) - u) > tol:
                 raise PropertyViolation(key, "q%s(%r,%r)=%r but reference cdf there is %s" % (
                     fam, u, P, q, mp.nstr(c_at, 15)), case)
@@ -312,7 +314,7 @@ def oracle(case, rec):
             if not (float(back) >= u - 1e-12):
                 raise PropertyViolation(key, "p(q(%r)) = %r < p" % (u, back), case)
         else:
-            if abs(float(back) - u) > 1e-8:
+            if abs(float(back) - u) > 1e-7:
                 raise PropertyViolation(key, "p%s(q%s(%r)) = %r" % (fam, fam, u, back), case)
             try:
                 px = _call("p" + fam, fam, x, P, use_def)
